@@ -1,7 +1,156 @@
-//! op "ord" (stub: answers bad-op until the engine is built)
+//! op "ord": the fallible sort / heap driven directly through the hook wrappers with a comparator that
+//! can fail at the k-th comparison, and the format-specifier parser (C19).
+//! Answers {"r": "<line>"} in the same textual form as the Lean driver (`lean/Driver/Ord.lean`),
+//! plus {"conserved": bool} = the buffer afterwards holds exactly the objects it held before
+//! (checked by pointer identity on `Rc`s and by their strong counts).
 
+use crate::doubles::{RecClock, RecRng, RecWriter};
+use crate::run::limits_from;
 use serde_json::{json, Value};
+use std::rc::Rc;
+use xray::builtin::verif_hooks::ord as hooks;
+use xray::runtime::RTCell;
 
-pub fn op(_req: &Value) -> Value {
-    json!({"bad-op": true})
+fn show(l: &[i64]) -> String {
+    if l.is_empty() {
+        "-".to_string()
+    } else {
+        l.iter().map(|x| x.to_string()).collect::<Vec<_>>().join(",")
+    }
+}
+
+fn ints(v: &Value) -> Vec<i64> {
+    v.as_array()
+        .map(|a| a.iter().map(|x| x.as_i64().unwrap_or(0)).collect())
+        .unwrap_or_default()
+}
+
+/// multiset of pointers equal, and every object referenced exactly by the side copy and the buffer
+fn conserved(orig: &[Rc<i64>], now: &[&Rc<i64>], extra_refs: usize) -> bool {
+    let mut a: Vec<*const i64> = orig.iter().map(Rc::as_ptr).collect();
+    let mut b: Vec<*const i64> = now.iter().map(|r| Rc::as_ptr(r)).collect();
+    a.sort();
+    b.sort();
+    a == b && orig.iter().all(|r| Rc::strong_count(r) == 2 + extra_refs)
+}
+
+fn op_sort(req: &Value) -> Value {
+    let d = req["d"].as_i64().unwrap_or(1).max(1);
+    let k = req["k"].as_i64().unwrap_or(-1);
+    let violation = req["kind"].as_str() == Some("violation");
+    let xs = ints(&req["xs"]);
+    let orig: Vec<Rc<i64>> = xs.iter().map(|x| Rc::new(*x)).collect();
+    let mut v: Vec<Rc<i64>> = orig.clone();
+    let mut count: i64 = 0;
+    let res: Result<Result<(), &'static str>, &'static str> = hooks::sort_with(&mut v, |a, b| {
+        let i = count;
+        count += 1;
+        if i == k {
+            if violation {
+                Err("V")
+            } else {
+                Ok(Err("E"))
+            }
+        } else {
+            Ok(Ok(a.div_euclid(d) < b.div_euclid(d)))
+        }
+    });
+    let now: Vec<i64> = v.iter().map(|r| **r).collect();
+    let cons = conserved(&orig, &v.iter().collect::<Vec<_>>(), 0);
+    let r = match res {
+        Ok(Ok(())) => format!("ok {} {}", show(&now), count),
+        Ok(Err(e)) | Err(e) => format!("fail {} {} {}", e, show(&now), count),
+    };
+    json!({"r": r, "conserved": cons})
+}
+
+fn op_heap(req: &Value) -> Value {
+    let d = req["d"].as_i64().unwrap_or(1).max(1);
+    let k = req["k"].as_i64().unwrap_or(-1);
+    let violation = req["kind"].as_str() == Some("violation");
+    let dec = req["dec"].as_bool().unwrap_or(true);
+    let n = req["n"].as_u64().unwrap_or(0) as usize;
+    let xs = ints(&req["xs"]);
+    let orig: Vec<Rc<i64>> = xs.iter().map(|x| Rc::new(*x)).collect();
+    let rt: RTCell<RecWriter, RecRng, RecClock> =
+        limits_from(&Value::Null).to_runtime(RecWriter::default(), RecClock { now: 0.0 });
+    let mut count: i64 = 0;
+    let rep = hooks::heap_run(
+        orig.clone(),
+        n,
+        |a: &Rc<i64>, b: &Rc<i64>| {
+            let i = count;
+            count += 1;
+            if i == k {
+                Err(!violation)
+            } else {
+                let (ka, kb) = (a.div_euclid(d), b.div_euclid(d));
+                // sequence.rs:379-383: DEC → !cmp.is_positive(), else !cmp.is_negative()
+                Ok(if dec { ka <= kb } else { ka >= kb })
+            }
+        },
+        rt,
+    );
+    let vals = |v: &Vec<Rc<i64>>| show(&v.iter().map(|r| **r).collect::<Vec<_>>());
+    // every original object is now in exactly one of: popped, drained, not_pushed — or was the one
+    // element a failing `pop` had already taken out of the heap (dropped with the error)
+    let mut seen: Vec<&Rc<i64>> = Vec::new();
+    seen.extend(rep.popped.iter());
+    seen.extend(rep.drained.iter());
+    seen.extend(rep.not_pushed.iter());
+    let mut a: Vec<*const i64> = orig.iter().map(Rc::as_ptr).collect();
+    let mut b: Vec<*const i64> = seen.iter().map(|r| Rc::as_ptr(r)).collect();
+    a.sort();
+    b.sort();
+    let missing: Vec<i64> = orig
+        .iter()
+        .filter(|r| !b.contains(&Rc::as_ptr(r)))
+        .map(|r| **r)
+        .collect();
+    b.dedup();
+    let no_dup = b.len() == seen.len();
+    let counts_ok = orig.iter().all(|r| {
+        let present = seen.iter().any(|s| Rc::ptr_eq(s, r));
+        Rc::strong_count(r) == if present { 2 } else { 1 }
+    });
+    let r = format!(
+        "{} popped {} len {} drained {} missing {} n {}",
+        rep.outcome,
+        vals(&rep.popped),
+        rep.len_after,
+        vals(&rep.drained),
+        show(&missing),
+        count
+    );
+    json!({"r": r, "conserved": no_dup && counts_ok && rep.drain_outcome == "ok", "not_pushed": vals(&rep.not_pushed)})
+}
+
+pub fn op(req: &Value) -> Value {
+    match req["f"].as_str().unwrap_or("") {
+        "sort" => op_sort(req),
+        "heap" => op_heap(req),
+        "spec" => json!({"r": hooks::parse_spec(req["s"].as_str().unwrap_or(""))}),
+        "fillers" => {
+            let r = hooks::fillers(
+                req["s"].as_str().unwrap_or(""),
+                req["len"].as_u64().unwrap_or(0) as usize,
+            );
+            match r {
+                None => json!({"r": "none"}),
+                Some((a, b, c)) => json!({"r": format!("{}|{}|{}", a, b, c)}),
+            }
+        }
+        "signgroup" => {
+            let r = hooks::sign_and_group(
+                req["s"].as_str().unwrap_or(""),
+                req["neg"].as_bool().unwrap_or(false),
+                req["digits"].as_str().unwrap_or(""),
+            );
+            match r {
+                None => json!({"r": "none"}),
+                Some((a, b)) => json!({"r": format!("{}|{}", a, b)}),
+            }
+        }
+        _ => json!({"bad-op": true}),
+    }
 }
